@@ -4,6 +4,9 @@ import json, os
 V = os.path.dirname(os.path.dirname(os.path.abspath(__file__)))
 # property -> (technique, DESIGN section)
 CLAIMED = {
+ "C07": ("rapidcheck + libFuzzer (ASan/UBSan) over operands placed flush against guard pages at every misalignment, painted windows, armed allocation counter, out-of-range index draws; other properties' bodies re-run under sanitised builds", "5/C07"),
+ "C14": ("rapidcheck-driven exact index-map oracle over all axis permutations of ranks 2-5 (sampled rank 6) and a transpose lattice, on bijective ramps and random data", "5/C14"),
+ "C17": ("rapidcheck-driven exact differential test of tmatmul against the general product over (type,M,K,N,tag pair,form) instances with operands clipped to their tagged triangle", "5/C17"),
  "C19": ("bounded-exhaustive enumeration of all index vectors (length<=4) and all 2^n masks (n<=12) plus rapidcheck-drawn longer ones, against a gather/scatter model with whole-parent and guard-window comparison", "5/C19"),
  "C20": ("model-based operation histories (rapidcheck command lists) applied through a TensorMap over a misaligned guarded buffer and to an owning-tensor model; layout conversions and constructors against row/column-major offset formulas", "5/C20"),
  "C02": ("generated expression-tree programs compiled once on Fastor tensors and once on scalars (same text), compared per flat position bit for bit / within the stated rounding, rapidcheck-driven data incl. IEEE specials", "5/C02"),
